@@ -100,7 +100,7 @@ def gen_cases(rng, tier):
         for _ in range(200):
             d = rng.randint(1, 5)
             s = [rng.randint(1, 7) for _ in range(d)]
-            if int(np.prod(s)) <= 1500:
+            if int(np.prod(s)) <= 240:
                 big.append(s)
     shapes = small + extra + big
     W = 1 if quick else 3          # sampling width multiplier
